@@ -245,11 +245,12 @@ def o1_describe_close(chk, prog, kind, nl, newl):
 
 
 # ------------------------------------------------------------------------------------------------ O2 cache key
-def o2_hash(chk, prog, qa, ta, qb, tb):
-    name = 'O2-hash-q%dt%d-vs-q%dt%d' % (qa, ta, qb, tb)
+def o2_hash(chk, prog, qa, ta, qb, tb, malformed=False, report_as='C08'):
+    name = 'O2-hash-q%dt%d-vs-q%dt%d%s' % (qa, ta, qb, tb, '-malformed' if malformed else '')
     ob = chk.begin(name, 'Parse::get_hash keys are injective up to the hasher: two statements (query %d bytes / %d types vs %d / %d, '
-                   'contents symbolic, type oids 0..9999) with equal hasher input are the same statement' % (qa, ta, qb, tb),
-                   {'a': [qa, ta], 'b': [qb, tb], 'type_oid_range': '0..9999'})
+                   'contents symbolic, type oids 0..9999%s) with equal hasher input are the same statement' % (qa, ta, qb, tb,
+                   '; the parameter COUNT field of each is an arbitrary non-positive i16 -- what a hostile client can make Parse::try_from accept with no types following' if malformed else ''),
+                   {'a': [qa, ta], 'b': [qb, tb], 'type_oid_range': '0..9999', 'malformed_count_field': malformed})
     gh = prog.lookup('Parse::get_hash')
     dec = prog.lookup('<Parse as TryFrom<&BytesMut>>::try_from')
     if len(gh) != 1 or len(dec) != 1:
@@ -264,23 +265,37 @@ def o2_hash(chk, prog, qa, ta, qb, tb):
             for t in tys:
                 ip_.assume(z3.ULE(t.v, 9999))
             msg = wire.parse_msg([], q, tys)
+            np = None
+            if malformed:
+                # the count field (after the empty name and the query) is whatever the client likes, as long as the decoder accepts the
+                # message: zero or negative with no types following
+                off = 5 + 1 + len(q) + 1
+                np = ip_.fresh(16, 'np' + tag)
+                ip_.assume(z3.Or(np.v == 0, z3.UGE(np.v, 0x8000)))
+                msg = msg[:off] + [bv(8, z3.Extract(15, 8, np.v)), bv(8, z3.Extract(7, 0, np.v))] + msg[off + 2:]
             r = ip_.call_function(dec[0], [Ptr(Cell(Seq(msg, 'bytesmut'), 'msg'))])
+            if result_variant(ip_, r) != 'Ok':
+                return
             p = payload(r, 'Ok')[0]
             ip_.env['hash_inputs'] = []
             h = ip_.call_function(gh[0], [Ptr(Cell(p, 'parse'))])
             inp = ip_.env['hash_inputs'][-1]
-            sides.append((q, tys, msg, inp, h))
+            sides.append((q, tys, msg, inp, h, np))
         ob.nontrivial += 1
-        (q1, t1, m1, i1, h1), (q2, t2, m2, i2, h2) = sides
+        (q1, t1, m1, i1, h1, np1), (q2, t2, m2, i2, h2, np2) = sides
         if len(i1) != len(i2):
             return          # different hasher input lengths: distinct inputs (hash collisions of SipHash are outside the claim)
         same_stmt = z3.And(bytes_eq(q1, q2), z3.BoolVal(len(t1) == len(t2)),
                            *[x.z() == y.z() for x, y in zip(t1, t2)]) if len(t1) == len(t2) else z3.BoolVal(False)
+        if malformed:
+            same_stmt = z3.And(same_stmt, np1.v == np2.v)
         m = ip_.model_for(z3.And(bytes_eq(i1, i2), z3.Not(same_stmt)))
         if m is not None:
             a_hex, b_hex = wire.to_hex(m, m1), wire.to_hex(m, m2)
-            chk.report(ob, 'C08/O2/hash-key-collision',
-                       'two different statements share a pool cache key (hence a server-side statement): query %r types %r vs query %r types %r'
+            chk.report(ob, '%s/O2/hash-key-collision%s' % (report_as, '/malformed-count' if malformed else ''),
+                       ('two different statements share a pool cache key (hence a server-side statement): query %r types %r vs query %r types %r'
+                        if not malformed else 'a Parse with a malformed parameter count shares the key of the pool-wide statement cache with a different (valid) statement: whoever '
+                        'registers first decides what every other client of the pool gets for that key: query %r types %r vs query %r types %r')
                        % (mstr(m, q1), [m.eval(t.z(), True).as_long() for t in t1], mstr(m, q2), [m.eval(t.z(), True).as_long() for t in t2]),
                        {'a_hex': a_hex, 'b_hex': b_hex},
                        {'commands': [{'op': 'parse_hash', 'a': a_hex, 'b': b_hex}], 'expect': ['c08_hash_collision']})
